@@ -72,8 +72,9 @@ def run(ctx):
             cache[key] = eng.run_fake(sc, order, args, config=cfg, extra_args=[])[:3]
         return cache[key]
 
-    def one(cfgsel, seq):
-        cfg = [("sizer." + k, v) for k, (v, _) in cfgsel.items() if v is not None]
+    def one(cfgsel, seq, earlier=()):
+        # earlier: (key, value) entries listed BEFORE the effective ones (a key defined in several scopes: the last wins)
+        cfg = [("sizer." + k, v) for k, v in earlier] + [("sizer." + k, v) for k, (v, _) in cfgsel.items() if v is not None]
         args = [x for o in seq for x in o[0]]
         toks = [o[1] for o in seq]
         line = "options %s %s %s %s 1 %s" % (cfgsel["threshold"][1], cfgsel["names"][1], cfgsel["jsonVersion"][1],
@@ -140,6 +141,17 @@ def run(ctx):
                     cfgsel = dict(base)
                     cfgsel[fam] = cv
                     one(cfgsel, fs)
+        # a key defined more than once (several scopes, --add): git's effective value is the last one
+        multi = {"threshold": [("0", ("30", "30.0")), ("30", ("0", "0.0")), ("many", ("2.5", "2.5")), ("2.5", ("many", "bad"))],
+                 "names": [("full", ("none", "none")), ("none", ("hash", "hash")), ("x", ("full", "full"))],
+                 "jsonVersion": [("1", ("2", "2")), ("2", ("1", "1"))],
+                 "progress": [("true", ("false", "f")), ("false", ("true", "t"))]}
+        for fam, lst in multi.items():
+            for first, last in lst:
+                cfgsel = dict(base)
+                cfgsel[fam] = last
+                for seq in ((), ((["--json"], "j:t"),), ((["-v"], "v:t"),) if fam != "threshold" else ((["--names=hash"], "nm:hash"),)):
+                    one(cfgsel, seq, earlier=[(fam, first)])
         # documented equivalent spellings: byte-identical stdout
         pairs = [(["--verbose"], ["--threshold=0"]), (["-v"], ["--threshold=0"]), (["--critical"], ["--threshold=30"]),
                  (["--no-verbose"], ["--threshold=1"]), (["-j"], ["--json"]),
